@@ -97,6 +97,14 @@ def computeLength : Encoding → List Nat → Option Nat
   | .macRoman, s => if s.length < 65536 then some s.length else none
   | .unknown, _ => some 0
 
+/-- `NameRecord::validate_string_data` (no report = `true`): unknown platform / encoding pairs are rejected; UTF-16 strings
+of more than `u16::MAX / 2` code units and MacRoman strings of more than `u16::MAX` chars do not fit the length field;
+every MacRoman char must be encodable -/
+def validateString : Encoding → List Nat → Bool
+  | .unknown, _ => false
+  | .utf16be, s => decide ((s.map lenUtf16).sum ≤ 32767)
+  | .macRoman, s => decide (s.length ≤ 65535) && s.all fun c => (macEncode c).isSome
+
 /-- `CharIter::next` collected (`obj.chars().collect()`), UTF-16BE -/
 def decodeUtf16 : Bytes → List Nat
   | b0 :: b1 :: rest =>
